@@ -454,4 +454,181 @@ def refetchPublic (mods : List P11Module) (ksk : KskKey) (isPublic : Bool) (foun
 def WindowViolated (ksk : KskKey) (b : Bundle) : Prop :=
   ksk.validFrom > b.inception ∨ ∃ u, ksk.validUntil = some u ∧ u < b.expiration
 
+/-- `load_pkcs11_key` after the window test, as a function of the oracle's answers -/
+def loadAfterWindow (mods : List P11Module) (ksk : KskKey) (pol : KskPolicy) (isPublic : Bool)
+    (tok : Token) (s : TokState) : Res (Option CompositeKey) × TokState :=
+  match getP11Key ksk.label isPublic ksk.hashUsingHsm mods tok s with
+  | (.error e, s1) => (.error e, s1)
+  | (.ok none, s1) => (.ok none, s1)
+  | (.ok (some f0), s1) =>
+    match refetchPublic mods ksk isPublic f0 tok s1 with
+    | (.error e, s2) => (.error e, s2)
+    | (.ok f, s2) => (acceptKey ksk pol f, s2)
+
+theorem loadPkcs11Key_inside (mods : List P11Module) (ksk : KskKey) (pol : KskPolicy) (b : Bundle)
+    (isPublic : Bool) (tok : Token) (s : TokState) (h : ¬ WindowViolated ksk b) :
+    loadPkcs11Key mods ksk pol b isPublic tok s = loadAfterWindow mods ksk pol isPublic tok s := by
+  have h1 : ¬ ksk.validFrom > b.inception := fun x => h (Or.inl x)
+  have key : (do
+      match ← getP11Key ksk.label isPublic ksk.hashUsingHsm mods with
+      | none => pure none
+      | some found0 => do
+        let found ← refetchPublic mods ksk isPublic found0
+        acceptKeyM ksk pol found) tok s = loadAfterWindow mods ksk pol isPublic tok s := by
+    unfold loadAfterWindow
+    rw [bind_run]
+    cases getP11Key ksk.label isPublic ksk.hashUsingHsm mods tok s with
+    | mk r s1 =>
+      cases r with
+      | error e => rfl
+      | ok o =>
+        cases o with
+        | none => rfl
+        | some f0 =>
+          simp only [bind_run]
+          cases refetchPublic mods ksk isPublic f0 tok s1 with
+          | mk r2 s2 =>
+            cases r2 with
+            | error e => rfl
+            | ok f => simp only [acceptKeyM_eq, TokM.lift_run]
+  rw [← key]
+  unfold loadPkcs11Key
+  simp only [h1, ↓reduceIte]
+  have key2 : ∀ f0 : P11Key, ∀ tok s, 
+    (if (f0.publicKey.isNone && !isPublic) = true then do
+            let __do_lift ← getP11Key ksk.label true ksk.hashUsingHsm mods
+            match __do_lift with
+              | some fp => do
+                let found ← pure { f0 with publicKey := fp.publicKey }
+                acceptKeyM ksk pol found
+              | none => do
+                let found ← pure f0
+                acceptKeyM ksk pol found
+          else do
+            let found ← pure f0
+            acceptKeyM ksk pol found) tok s = (refetchPublic mods ksk isPublic f0 >>= acceptKeyM ksk pol) tok s := by
+    intro f0 tok s
+    unfold refetchPublic
+    split
+    · simp only [bind_run]
+      cases getP11Key ksk.label true ksk.hashUsingHsm mods tok s with
+      | mk r s1 =>
+        cases r with
+        | error e => rfl
+        | ok o => cases o <;> rfl
+    · rfl
+  have key3 : ∀ tok s, (do
+      let __do_lift ← getP11Key ksk.label isPublic ksk.hashUsingHsm mods
+      match __do_lift with
+        | none => pure none
+        | some f0 =>
+          if (f0.publicKey.isNone && !isPublic) = true then do
+            let __do_lift ← getP11Key ksk.label true ksk.hashUsingHsm mods
+            match __do_lift with
+              | some fp => do
+                let found ← pure { f0 with publicKey := fp.publicKey }
+                acceptKeyM ksk pol found
+              | none => do
+                let found ← pure f0
+                acceptKeyM ksk pol found
+          else do
+            let found ← pure f0
+            acceptKeyM ksk pol found) tok s = (do
+      match ← getP11Key ksk.label isPublic ksk.hashUsingHsm mods with
+      | none => pure none
+      | some found0 => do
+        let found ← refetchPublic mods ksk isPublic found0
+        acceptKeyM ksk pol found) tok s := by
+    intro tok s
+    simp only [bind_run]
+    cases getP11Key ksk.label isPublic ksk.hashUsingHsm mods tok s with
+    | mk r s1 =>
+      cases r with
+      | error e => rfl
+      | ok o =>
+        cases o with
+        | none => rfl
+        | some f0 => simpa only [bind_run] using key2 f0 tok s1
+  cases hu : ksk.validUntil with
+  | none => exact key3 tok s
+  | some u =>
+    have h2 : ¬ u < b.expiration := fun x => h (Or.inr ⟨u, hu, x⟩)
+    simp only [h2, ↓reduceIte]
+    exact key3 tok s
+
+
+theorem loadPkcs11Key_violated (mods : List P11Module) (ksk : KskKey) (pol : KskPolicy) (b : Bundle)
+    (isPublic : Bool) (tok : Token) (s : TokState) (h : WindowViolated ksk b) :
+    loadPkcs11Key mods ksk pol b isPublic tok s = (.error (.violation .keyUsage), s) := by
+  by_cases h0 : ksk.validFrom > b.inception
+  · simp [loadPkcs11Key, h0, bind, TokM.fail]
+  · rcases h with h | ⟨u, hu, h⟩
+    · exact absurd h h0
+    · simp [loadPkcs11Key, h0, hu, h, bind, TokM.fail]
+
+theorem refetchPublic_emits (mods : List P11Module) (ksk : KskKey) (isPublic : Bool) (found : P11Key) :
+    Emits (IsReadAmong mods) (refetchPublic mods ksk isPublic found) := by
+  have := getP11Key_emits ksk.label true ksk.hashUsingHsm mods
+  unfold refetchPublic
+  repeat' emits_step
+
+theorem loadPkcs11Key_emits (mods : List P11Module) (ksk : KskKey) (pol : KskPolicy) (b : Bundle)
+    (isPublic : Bool) : Emits (IsReadAmong mods) (loadPkcs11Key mods ksk pol b isPublic) := by
+  have h1 := getP11Key_emits ksk.label true ksk.hashUsingHsm mods
+  have h2 := getP11Key_emits ksk.label isPublic ksk.hashUsingHsm mods
+  unfold loadPkcs11Key
+  repeat' emits_step
+
+/-! ### `_fetch_keys` -/
+
+theorem fetchKeys_cons_run (ext : Externals) (mods : List P11Module) (cfg : SignerConfig) (b : Bundle)
+    (isPublic : Bool) (name : String) (rest : List String) (tok : Token) (s : TokState) :
+    fetchKeys ext mods cfg b isPublic (name :: rest) tok s =
+      match cfg.kskKeys.lookup name with
+      | none => (.error (.error .key), s)
+      | some ksk =>
+        match loadPkcs11Key mods ksk cfg.kskPolicy b isPublic tok s with
+        | (.error e, s1) => (.error e, s1)
+        | (.ok none, s1) => (.error (.error .configuration), s1)
+        | (.ok (some ck), s1) =>
+          match validateDnskeyMatchesKsk ext ksk ck.dns with
+          | .error e => (.error e, s1)
+          | .ok _ =>
+            match fetchKeys ext mods cfg b isPublic rest tok s1 with
+            | (.error e, s2) => (.error e, s2)
+            | (.ok more, s2) => (.ok (ck :: more), s2) := by
+  rw [fetchKeys]
+  cases cfg.kskKeys.lookup name with
+  | none => rfl
+  | some ksk =>
+    simp only [bind_run]
+    cases loadPkcs11Key mods ksk cfg.kskPolicy b isPublic tok s with
+    | mk r s1 =>
+      cases r with
+      | error e => rfl
+      | ok o =>
+        cases o with
+        | none => rfl
+        | some ck =>
+          simp only [TokM.lift_run]
+          cases validateDnskeyMatchesKsk ext ksk ck.dns with
+          | error e => rfl
+          | ok u =>
+            simp only
+            cases fetchKeys ext mods cfg b isPublic rest tok s1 with
+            | mk r2 s2 => cases r2 <;> rfl
+
+theorem fetchKeys_emits (ext : Externals) (mods : List P11Module) (cfg : SignerConfig) (b : Bundle)
+    (isPublic : Bool) (names : List String) :
+    Emits (IsReadAmong mods) (fetchKeys ext mods cfg b isPublic names) := by
+  induction names with
+  | nil => exact Emits.pure _
+  | cons name rest ih =>
+    have := fun ksk => loadPkcs11Key_emits mods ksk cfg.kskPolicy b isPublic
+    rw [fetchKeys]
+    split
+    · exact Emits.err _
+    · refine Emits.bind (this _) (fun o => ?_)
+      repeat' emits_step
+
 end Kskm
